@@ -132,10 +132,19 @@ def run_lexer(text):
         toks.append((str(t.type), t.lexpos, end - t.lexpos, canon_value(t.value, text[t.lexpos:end])))
 
 
+_CONFIRMED = [0]
+
+
 def run_engine(text, seconds=5.0):
     """engine(text): ('ok', statement) | ('lex', pos) | ('gram', pos|None) |
     ('foreign', class) | ('timeout',)"""
     res, e = with_watchdog(lambda: engine()(text), seconds)
+    if isinstance(e, Timeout) and _CONFIRMED[0] < 2:
+        # a loaded machine must not turn a slow-but-terminating parse into an alarm: confirm with a long watchdog
+        # (at most twice per process - after that the violation is established and the short watchdog suffices)
+        res, e = with_watchdog(lambda: engine()(text), 90.0)
+        if isinstance(e, Timeout):
+            _CONFIRMED[0] += 1
     if e is None:
         return ("ok", res)
     if isinstance(e, Timeout):
